@@ -685,7 +685,7 @@ def ftol(m, extra=0.0):
 def op_restrict(rng, m, ctx=None):
     nt = m.t.shape[1]
     sub = rand_subset(rng, nt)
-    form = rng.choice(["array", "array", "unsorted", "list", "set", "name", "callable", "int"])
+    form = rng.choice(["array", "array", "unsorted", "list", "set", "name", "callable", "int", "list-of-overlapping-parts"])
     skipb, skips = rng.random() < 0.1, rng.random() < 0.1
     retmap = rng.random() < 0.5
     arg = np.array(sub, dtype=rng.choice([np.int32, np.int64]))
@@ -707,6 +707,17 @@ def op_restrict(rng, m, ctx=None):
                 form = "array"
         else:
             form = "array"
+    elif form == "list-of-overlapping-parts":
+        # a collection whose members overlap (two index arrays, or a name and an array): the union, each cell once
+        cut = rng.randint(0, len(sub) - 1)
+        a, b = sub[:cut + 1], sub[max(0, cut - 1):]
+        members = [np.array(a, dtype=np.int64), np.array(b, dtype=np.int32)]
+        if m.subdomains and rng.random() < 0.5:
+            name = rng.choice(sorted(m.subdomains))
+            if len(m.subdomains[name]):
+                members.append(name)
+                sub = sorted(set(sub) | set(int(k) for k in np.asarray(m.subdomains[name]).tolist()))
+        arg = rng.choice([list, tuple])(members)
     elif form == "int":
         sub = [sub[0]]
         arg = int(sub[0])
